@@ -150,6 +150,55 @@ func rulesC05(p *Prog, r *Report) {
 				}
 			}
 		}
+		// table-driven form: a local table of reader functions tried in order by a range loop
+		if len(kwCalls) == 0 && len(idCalls) == 0 {
+			for _, b := range pt.Blocks {
+				for _, in := range b.Instrs {
+					ix, ok := in.(*ssa.Index)
+					if !ok {
+						continue
+					}
+					fns := funcTableOf(ix.X)
+					if len(fns) == 0 || isRangeIndexOf(ix.Index, ix.X) != nil {
+						continue
+					}
+					called := false
+					for _, ref := range *ix.Referrers() {
+						if c, ok := ref.(*ssa.Call); ok && c.Call.Value == ssa.Value(ix) {
+							called = true
+						}
+					}
+					if !called {
+						continue
+					}
+					firstID, lastKW := -1, -1
+					nk, ni := 0, 0
+					for i, f := range fns {
+						g := unwrapThunk(p, f)
+						switch {
+						case reaches(g, kw.ReadFn):
+							lastKW = i
+							nk++
+						case kw.ReadRegex != nil && reaches(g, kw.ReadRegex):
+							if firstID < 0 {
+								firstID = i
+							}
+							ni++
+						}
+					}
+					switch {
+					case nk == 0 || ni == 0:
+						r.Unknown("G2", "reader order", p.pos(pt.Pos()), "kind=undecided: keyword readers / id reader not recognised in the reader table of parseToken")
+					case lastKW > firstID:
+						r.Bad("G2", "reader order", p.pos(pt.Pos()), fmt.Sprintf("ids are matched broadly; slot %d of the reader table (a keyword reader) comes after slot %d (the id reader), so a keyword or reference prefix would be swallowed by the id reader", lastKW, firstID))
+					default:
+						r.OK("G2", "reader order", p.pos(pt.Pos()), "keyword readers precede the id reader in the reader table", fmt.Sprintf("%d keyword readers, %d id readers", nk, ni), true)
+					}
+					goto g2done
+				}
+			}
+		}
+		{
 		bad := ""
 		for _, ic := range idCalls {
 			for _, kc := range kwCalls {
@@ -165,6 +214,8 @@ func rulesC05(p *Prog, r *Report) {
 		} else {
 			r.OK("G2", "reader order", p.pos(pt.Pos()), "keyword readers dominate the id reader", fmt.Sprintf("%d keyword readers, %d id readers", len(kwCalls), len(idCalls)), true)
 		}
+		}
+	g2done:
 	}
 	// G3
 	tokT := p.ExpPkg.Types.Scope().Lookup("token")
@@ -188,6 +239,15 @@ func rulesC05(p *Prog, r *Report) {
 					switch t := in.(type) {
 					case *ssa.Store:
 						if fa, ok := t.Addr.(*ssa.FieldAddr); ok && fieldOf(fa).Struct == tokT.Type().String() && fieldOf(fa).Field == "role" {
+							if prm, isPrm := t.Val.(*ssa.Parameter); isPrm {
+								// a shared token constructor: the constant roles its call sites pass
+								if cs, ok := paramConsts(p, prm); ok {
+									for _, c := range cs {
+										produced[c.Value.ExactString()] = t.Pos()
+									}
+									continue
+								}
+							}
 							if c, ok := t.Val.(*ssa.Const); ok && c.Value != nil {
 								produced[c.Value.ExactString()] = t.Pos()
 							} else {
@@ -611,6 +671,61 @@ func structFieldConsts(v ssa.Value, f int, d int) ([]string, bool) {
 		return out, len(out) > 0
 	}
 	return nil, false
+}
+
+// paramConsts: the constants passed for parameter prm at every static call site of its function in the
+// reachable code; ok is false when some site passes a non-constant or there is no site.
+func paramConsts(p *Prog, prm *ssa.Parameter) ([]*ssa.Const, bool) {
+	f := prm.Parent()
+	idx := -1
+	for i, fp := range f.Params {
+		if fp == prm {
+			idx = i
+		}
+	}
+	if idx < 0 {
+		return nil, false
+	}
+	var out []*ssa.Const
+	for _, g := range p.RList {
+		for _, b := range g.Blocks {
+			for _, in := range b.Instrs {
+				ci, ok := in.(ssa.CallInstruction)
+				if !ok || ci.Common().StaticCallee() != f || idx >= len(ci.Common().Args) {
+					continue
+				}
+				c, ok := ci.Common().Args[idx].(*ssa.Const)
+				if !ok || c.Value == nil {
+					return nil, false
+				}
+				out = append(out, c)
+			}
+		}
+	}
+	return out, len(out) > 0
+}
+
+// unwrapThunk: the in-module method a synthetic thunk / bound-method wrapper forwards to, else f itself.
+func unwrapThunk(p *Prog, f *ssa.Function) *ssa.Function {
+	if f == nil || f.Synthetic == "" || p.InModule(f) {
+		return f
+	}
+	var inner *ssa.Function
+	n := 0
+	for _, b := range f.Blocks {
+		for _, in := range b.Instrs {
+			if ci, ok := in.(ssa.CallInstruction); ok {
+				if c := ci.Common().StaticCallee(); c != nil {
+					inner = c
+					n++
+				}
+			}
+		}
+	}
+	if n == 1 && inner != nil {
+		return inner
+	}
+	return f
 }
 
 // tailOf returns the last operand of a string concatenation chain.
